@@ -4,7 +4,27 @@ sys.path.insert(0, os.path.dirname(os.path.abspath(__file__)))
 from lib import common
 
 
+def neutral_signals():
+    """the checks start children whose fate depends on signal dispositions and the signal mask, both inherited: whoever launched this process
+    (nohup, a shell's background job, a daemon, a CI runner) may have left SIGHUP / SIGINT / SIGQUIT ignored or signals blocked.  Start from
+    the state of an ordinary foreground program, so that the same tree gives the same verdict however the check was launched."""
+    for name in ('SIGHUP', 'SIGINT', 'SIGQUIT', 'SIGTERM', 'SIGCHLD', 'SIGCONT', 'SIGTSTP', 'SIGTTIN', 'SIGTTOU', 'SIGUSR1', 'SIGUSR2', 'SIGALRM', 'SIGWINCH'):
+        sig = getattr(signal, name, None)
+        if sig is None:
+            continue
+        try:
+            if signal.getsignal(sig) in (signal.SIG_IGN, None):
+                signal.signal(sig, signal.default_int_handler if name == 'SIGINT' else signal.SIG_DFL)
+        except (OSError, ValueError):
+            pass
+    try:
+        signal.pthread_sigmask(signal.SIG_SETMASK, [])
+    except (AttributeError, OSError, ValueError):
+        pass
+
+
 def main():
+    neutral_signals()
     ap = argparse.ArgumentParser()
     ap.add_argument('prop')
     ap.add_argument('--tier', default=os.environ.get('VERIF_TIER', 'quick'), choices=['quick', 'thorough'])
